@@ -30,9 +30,11 @@ func raceWorker(repo string) int {
 		fmt.Fprintln(os.Stderr, "race worker:", err)
 		return 2
 	}
-	var sink bytes.Buffer // log.Logger serialises writes to its output under its own mutex
+	// one sink per logger: a log.Logger serialises the writes to ITS output under its own mutex,
+	// two loggers sharing one bytes.Buffer would be a race of the harness, not of the renderer
+	var sink, sink2 bytes.Buffer
 	logger.ProgressLogger.SetOutput(&sink)
-	logger.WarningLogger.SetOutput(&sink)
+	logger.WarningLogger.SetOutput(&sink2)
 	r := rng.New(uint64(len(docs)))
 	enc := json.NewEncoder(os.Stdout)
 	for pos := 0; pos < len(docs); {
@@ -53,6 +55,7 @@ func raceWorker(repo string) int {
 		}
 		wg.Wait()
 		sink.Reset()
+		sink2.Reset()
 		for k := range group {
 			h := got[k].hashes()
 			enc.Encode(wAns{ID: group[k].ID, Raw: h.raw, Canon: h.canon, Crash: h.crash})
